@@ -276,6 +276,12 @@ int assemble_code(
   AsmContext asm_context;
   int i;
 
+  if (cpu_name == NULL)
+  {
+    printf("Error: No CPU selected.\n");
+    return -1;
+  }
+
   asm_context.init();
   asm_context.set_cpu(cpu_name);
   asm_context.set_org(org);
@@ -655,7 +661,12 @@ int main(int argc, char *argv[])
             was_pc_set = true;
           }
 
-          assemble_code(util_context, cpu_name, code.value(), org);
+          // Without a -<cpu> option use the CPU the file was loaded as.
+          assemble_code(
+            util_context,
+            cpu_name != NULL ? cpu_name : util_context.cpu_name,
+            code.value(),
+            org);
           code.clear();
         }
 
